@@ -625,4 +625,72 @@ def gen_c19(tier, seed):
 
 PROPS['C19'] = {'gen': gen_c19, 'monitors': [monitors.mon_capi]}
 
+# --------------------------------------------------------------------------- C01 (whole system)
+
+def gen_c01(tier, seed):
+    g = G('y', seed)
+    r = g.rnd
+    # (a) lock step: the first instructions of both firmware images on implementation AND model, full state compared
+    win = 0x8000 if tier == 'quick' else 0x40000
+    nwin = 6 if tier == 'quick' else 24
+    for v in (1, 2):
+        for k in ((1000, 250) if tier == 'quick' else (50, 100, 250, 1000, 4000)):
+            ops = ['rs:%x' % v, 'k:%x' % k]
+            for w in range(nwin):
+                ops += ['run:%x' % win, 'gr', 'gi' if False else 'vd']
+                if w == 2:
+                    ops += ['qb:41', 'qa:42', 'mm:12:34', 'md:1']
+            g.add(ops + ['ng', 'do'], 'lockstep-v%d' % v)
+    # (b) end to end on the implementation: boot, keyboard initialised, frame populated, keys echoed once in order,
+    #     printable bytes drawn and reported dirty, mouse events in between
+    combos = []
+    if tier == 'quick':
+        combos = [(2, 1000, 'blank'), (2, 250, 'saved'), (1, 1000, 'blank'), (2, 4000, 'blank'), (2, 50, 'blank')]
+    else:
+        for v in (1, 2):
+            for k in (50, 100, 250, 1000, 4000):
+                for nv in ('blank', 'saved', 'blank'):
+                    combos += [(v, k, nv)] * (3 if v == 2 else 1)
+    for (v, k, nv) in combos:
+        t20 = max(1, 20000000 // k)          # steps per 20 ms of emulated time
+        maxboot = 0x8000000
+        ops = []
+        # the firmware only starts consuming host input about one second of EMULATED time after reset (measured: at
+        # 100 ns per instruction a byte sent right after the idle loop is reached is drawn 0.29 s later, at 250 ns at
+        # once); the interactive state is therefore taken to be: priority level 0 AND 1.5 s of emulated time later
+        settle = 'run:%x' % (1500000000 // k)
+        if nv == 'saved':
+            ops += ['rs:%x' % v, 'k:%x' % k, 'bt:%x' % maxboot, settle, 'dk', 'nsv', 'rs:%x' % v, 'nrs']
+        ops += ['rs:%x' % v, 'k:%x' % k, 'bt:%x' % maxboot, settle, 'dk', 'vr', 'vd']
+        keys = [r.choice(list(range(0x20, 0x7f))) for _ in range(r.randrange(5, 12))]
+        for kc in keys:
+            ops += ['qb:%x' % kc]
+            pause = t20 * r.choice([1, 1, 2, 3])
+            if r.random() < 0.5:
+                # mouse events at a random instant inside the pause
+                cut = r.randrange(1, pause)
+                ops += ['run:%x' % cut, r.choice(['mm:%x:%x' % (r.randrange(1024), r.randrange(1024)), 'md:%x' % r.randrange(3), 'mu:%x' % r.randrange(3)]), 'run:%x' % (pause - cut)]
+            else:
+                ops += ['run:%x' % pause]
+        ops += ['run:%x' % (t20 * 3), 'da', 'vr', 'vd']
+        chars = [r.choice(list(range(0x21, 0x7f))) for _ in range(r.randrange(2, 6))]
+        for ch in chars:
+            ops += ['qa:%x' % ch, 'run:%x' % (t20 * 2)]
+            if r.random() < 0.4:
+                ops += ['mm:%x:%x' % (r.randrange(1024), r.randrange(1024))]
+            ops += ['vd', 'vr']
+        ops += ['da', 'X:%s' % ','.join('%x' % kc for kc in keys)]
+        g.add(['S'] + ops, 'end-to-end-v%d-%dns-%s' % (v, k, nv))
+    return g.result('Lock step of implementation and model on the first instructions of both firmware images (windows of 32 Ki / 256 Ki steps, full '
+                    'state compared after each window, host events injected in between); and end-to-end runs on the implementation under the '
+                    'virtual clock: both images x emulated time per instruction from 50 ns to 4 us x blank / firmware-saved NVRAM, boot until the '
+                    'priority level stays 0, then 5-11 keys at one per 20-60 ms with mouse events at random instants, then 2-5 printable RS-232 '
+                    'bytes.')
+
+
+PROPS['C01'] = {'gen': gen_c01, 'monitors': [monitors.mon_sys], 'level': 'other',
+                'explanation': 'Partial: two Coq theorems (host mouse events change only the mouse / input-port / request registers, for any guest) plus evaluation, not proof, of the firmware-dependent conjuncts: the implementation is run under the virtual clock on both images (boot to priority level 0 + 1.5 s of emulated time, keyboard init 02 12, window non-blank, typed keys echoed once in order, printable bytes drawn and reported dirty, mouse events interleaved) and compared in lock step with the extracted Coq model on the first instructions of both images.',
+                'assumptions': ['virtual clock only (std::time::Instant of the unguarded build is not modelled)',
+                                'the firmware images are binaries without source: their behaviour is evaluated on sampled configurations and schedules, not proved']}
+
 import cpucases  # noqa: E402,F401  (registers C02-C05)
